@@ -162,7 +162,7 @@ func runAll(cases []hx.Case) [][]string {
 		todo = rest
 		if round > 200 {
 			for _, i := range todo {
-				outs[i] = []string{"PANIC:" + hx.HexS("worker-keeps-dying_"+msg)[1:]}
+				outs[i] = []string{"PANIC:" + hx.HexS("worker-keeps-dying_" + msg)[1:]}
 			}
 			break
 		}
